@@ -299,7 +299,10 @@ def _impl_cat_chunk(rg):
     lo, hi = rg
     out, cur, cnt = [], None, 0
     for cp in range(lo, hi):
-        nm = impl.cat_of(chr(cp))
+        try:
+            nm = impl.cat_of(chr(cp))
+        except BaseException as e:      # noqa
+            nm = 'RAISES-' + type(e).__name__
         if nm == cur:
             cnt += 1
         else:
